@@ -21,6 +21,9 @@ type c08Scenario struct {
 	Cause     string
 	Saturated bool
 	Race      bool
+	// NoWriter: the pipes the cause does not need are left without a writer,
+	// so their ingesters are still waiting in open(2) when the cause strikes.
+	NoWriter bool
 }
 
 var c08Causes = []string{
@@ -94,7 +97,7 @@ func (p *pump) halt() {
 }
 
 func c08Run(r *vlib.Run, sc c08Scenario, idx int) (evaluated bool) {
-	label := fmt.Sprintf("%s/saturated=%v/race=%v", sc.Cause, sc.Saturated, sc.Race)
+	label := fmt.Sprintf("%s/saturated=%v/no-writer=%v/race=%v", sc.Cause, sc.Saturated, sc.NoWriter, sc.Race)
 	o := daemonOpts{race: sc.Race}
 	scratch, _ := os.MkdirTemp("", "verif-c08-")
 	defer os.RemoveAll(scratch)
@@ -127,6 +130,9 @@ func c08Run(r *vlib.Run, sc c08Scenario, idx int) (evaluated bool) {
 	if sc.Saturated {
 		sig += ":saturated"
 	}
+	if sc.NoWriter {
+		sig += ":no-writer-on-other-pipe"
+	}
 	misconfigured := strings.Contains(sc.Cause, "-path-")
 	var ws, wa *os.File
 	var pm *pump
@@ -138,10 +144,17 @@ func c08Run(r *vlib.Run, sc c08Scenario, idx int) (evaluated bool) {
 		}
 		return f
 	}
-	if !strings.HasPrefix(sc.Cause, "sshd-path") {
+	needS := sc.Cause == "sshd-pipe-eof" || sc.Cause == "write-failure-on-sshd-line"
+	needA := sc.Cause == "audit-pipe-eof" || sc.Cause == "malformed-audit-line"
+	if !strings.HasPrefix(sc.Cause, "sshd-path") && (!sc.NoWriter || needS) {
 		ws = openHealthy(d.sshdPath)
 	}
-	if !strings.HasPrefix(sc.Cause, "audit-path") {
+	if sc.NoWriter {
+		// give the daemon time to reach its blocking opens (informational wait;
+		// the verdict does not depend on it)
+		time.Sleep(150 * time.Millisecond)
+	}
+	if !strings.HasPrefix(sc.Cause, "audit-path") && (!sc.NoWriter || needA) {
 		if sc.Saturated {
 			pm, err = startPump(d.auditPath, d)
 			if err != nil {
@@ -274,11 +287,15 @@ func checkC08(r *vlib.Run) int {
 		for _, c := range []string{"SIGTERM", "malformed-audit-line", "sshd-pipe-eof", "SIGINT"} {
 			scs = append(scs, c08Scenario{Cause: c, Saturated: true})
 		}
+		for _, c := range c08Causes {
+			scs = append(scs, c08Scenario{Cause: c, NoWriter: true})
+		}
 	} else {
 		for rep := 0; rep < 3; rep++ {
 			for _, race := range []bool{false, true} {
 				for _, c := range c08Causes {
 					scs = append(scs, c08Scenario{Cause: c, Race: race})
+					scs = append(scs, c08Scenario{Cause: c, Race: race, NoWriter: true})
 					if !strings.HasPrefix(c, "audit-path") && c != "audit-pipe-eof" {
 						scs = append(scs, c08Scenario{Cause: c, Saturated: true, Race: race})
 					}
@@ -314,7 +331,7 @@ func checkC08(r *vlib.Run) int {
 	for i, ok := range done {
 		if ok {
 			evals++
-			dist.Add(fmt.Sprintf("%s|%v", scs[i].Cause, scs[i].Saturated))
+			dist.Add(fmt.Sprintf("%s|%v|%v", scs[i].Cause, scs[i].Saturated, scs[i].NoWriter))
 		}
 	}
 	r.Set("causes", c08Causes)
@@ -323,7 +340,7 @@ func checkC08(r *vlib.Run) int {
 	r.Assumptions = []string{"'saturated' is observed: the pumping writer's write(2) hit EAGAIN at least five times before the fault is injected, otherwise the scenario is inconclusive",
 		"'does not exit' is a violation only if the SIGQUIT dump shows main parked in errgroup.Wait and a worker parked; otherwise inconclusive",
 		"signals may end the process with any status; failures must give a non-zero status"}
-	return r.Finish(evals, dist.Len(), "built daemon x failure cause {sshd pipe EOF, audit pipe EOF, malformed audit line, event write failure via /dev/full, sshd/audit path is a regular file / missing / a directory, SIGTERM, SIGINT} x load {idle, saturated by a pumping writer}; thorough: x3 and with the -race build; distinct = (cause, load) pairs evaluated")
+	return r.Finish(evals, dist.Len(), "built daemon x failure cause {sshd pipe EOF, audit pipe EOF, malformed audit line, event write failure via /dev/full, sshd/audit path is a regular file / missing / a directory, SIGTERM, SIGINT} x load {idle with writers attached, idle with the other pipe still waiting for its writer, saturated by a pumping writer}; thorough: x3 and with the -race build; distinct = (cause, load) pairs evaluated")
 }
 
 func lastLineOf(s string) string {
